@@ -14,6 +14,8 @@ trips equal in both directions, find(k=v) = the tasks whose option k equals v.
 import itertools, json, os, shutil, tempfile
 
 ID = "C19"
+# computational entry points whose results are watched by the engine's retained-result oracle (mc/explore.py)
+RETAIN = [('hydrodiy.io.hyruns', 'SiteBatch.__getitem__'), ('hydrodiy.io.hyruns', 'OptionManager.to_dict')]
 RULE = ("get_batch: every (nelements, nbatch, ibatch) with 1 <= nbatch <= nelements <= N on the real "
         "function, batches concatenated and compared with 0..n-1, sizes max-min <= 1; every rejected "
         "call class (nbatch in {n+1, n+2, 2n+1}, ibatch in {-1, -nbatch, nbatch, nbatch+1}, nelements in "
